@@ -60,8 +60,9 @@ def tok_eq_lit(tok, lit):
     return z3.BoolVal(False)
 
 
-def q_asm_roundtrip(env, name=None):
-    qr = QResult(name or "asm_roundtrip")
+def q_asm_roundtrip(env, alias="include", name=None):
+    """alias="exclude": one-byte payloads are assumed to lie outside 0x10..0x16 (the values of the open known finding); "include": no assumption"""
+    qr = QResult(name or f"asm_roundtrip_{alias}")
     P = env.P
     f_to = env.fn("script::Script::to_asm_string_impl")
     f_from = env.fn("script::Script::from_asm_string")
@@ -292,6 +293,10 @@ def q_asm_roundtrip(env, name=None):
             ctx = Ctx()
             ctx.payloads = []
             ctx.script = Struct("Script", [ListV(build(shape, ctx))])
+            if alias == "exclude":
+                for d in ctx.payloads:
+                    if len(d) == 1:
+                        ctx.assumptions.append(z3.Or(z3.ULT(d[0], 0x10), z3.UGT(d[0], 0x16)))
             ex._ctx = ctx
             return "__asm_roundtrip__", [], ctx
         orig = ex.call_fn
